@@ -183,10 +183,11 @@ func instantiateGenericModel(
 	clonedStruct := reducedStruct.Clone()
 
 	rawParamNames := linq.Map(typeParamReplacementNodes, func(tParamNode *SymbolNode) string {
-		if tParamNode.Kind.IsBuiltin() {
-			return tParamNode.Id.Name
+		// The replacement may be a type parameter declaration or any concrete type (a builtin, a struct, an enum...)
+		if declMeta, isTypeParamDecl := tParamNode.Data.(*metadata.TypeParamDeclMeta); isTypeParamDecl {
+			return declMeta.Name
 		}
-		return tParamNode.Data.(*metadata.TypeParamDeclMeta).Name
+		return tParamNode.Id.Name
 	})
 
 	if modelNameTransformer != nil {
